@@ -101,7 +101,7 @@ func DefaultConfig() Config {
 		MaxDecisions:   400000,
 		MaxSimTime:     2 * time.Hour,
 		TaskStepBudget: 50_000_000,
-		DrainSteps:     2_000_000,
+		DrainSteps:     300_000,
 		DrainTime:      10 * time.Second,
 		KeepLog:        60,
 	}
@@ -117,6 +117,7 @@ type Sim struct {
 	cur    *Task
 	last   *Task
 	kick   chan struct{}
+	abortCh chan struct{} // closed by finish(): sleeping tasks leave their sleep and exit
 
 	steps         int64
 	charged       int64
@@ -246,6 +247,7 @@ func Run(t *testing.T, cfg Config, src Source, host func(s *Sim)) (res *Result) 
 		}()
 		synctest.Test(t, func(t *testing.T) {
 			s.kick = make(chan struct{}, 1)
+			s.abortCh = make(chan struct{})
 			s.start = time.Now()
 			active.Store(s)
 			defer active.Store(nil)
@@ -536,10 +538,34 @@ func Sleeping(d time.Duration) {
 }
 
 // Sleep is an announced sleep for harness code.
-func (s *Sim) Sleep(d time.Duration) {
-	Sleeping(d)
-	time.Sleep(d)
-	Woke()
+func (s *Sim) Sleep(d time.Duration) { SleepFor(d) }
+
+// SleepFor replaces time.Sleep in instrumented packages: an announced sleep on
+// the bubble's fake clock that ends early (the task exits) when the run is over,
+// so that a task asleep at the end of a run does not outlive it.
+func SleepFor(d time.Duration) {
+	s := active.Load()
+	if s == nil || s.free || s.aborting.Load() {
+		time.Sleep(d)
+		return
+	}
+	t := s.me()
+	if t == nil {
+		time.Sleep(d)
+		return
+	}
+	s.mu.Lock()
+	t.state = StSleeping
+	t.wakeAt = time.Now().Add(d)
+	s.mu.Unlock()
+	tm := time.NewTimer(d)
+	select {
+	case <-tm.C:
+	case <-s.abortCh:
+		tm.Stop()
+		runtime.Goexit()
+	}
+	s.park(t, StReady, "woke")
 }
 
 // Step is inserted at function entries and loop heads of the interpreter and
@@ -1121,8 +1147,9 @@ func (s *Sim) finish() *Result {
 	}
 	res.FullLog = s.fullLog
 
-	// Kill everything that is parked on a resume channel.
+	// Kill everything that is parked on a resume channel or asleep.
 	s.aborting.Store(true)
+	close(s.abortCh)
 	s.mu.Lock()
 	var parked []*Task
 	for _, t := range s.tasks {
